@@ -752,6 +752,15 @@ def gen_dialog_case(g, tier, c17=None):
             extra = [(spell(g, "Subscription-State", g.sp_pick([0, 2, 3, 4])), ss)]
             terminate = (ss == "terminated")
         m = dialog_msg(c, g, method, svc_ru, d, from_caller, extra=extra, vias=[ua_via])
+        if d.pinned and g.chance(0.08):
+            # the backend the dialog is bound to cannot be reached at the moment: the request goes nowhere else
+            ops.append("pipe bfail p=0 1 %s" % hx(d.backend))
+            raw(m, ua_ip, w.port_ua, ["spec=C04 dest none", "spec=C06 dest none"])
+            ops.append("pipe bfail p=0 0 %s" % hx(d.backend))
+            g.count("dlg_pinned_backend_down")
+            if terminate:
+                d.pinned = False       # the terminating NOTIFY dissolves the binding whether or not it could be delivered
+            continue
         if d.pinned:
             raw(m, ua_ip, w.port_ua, ["spec=C04 " + expect_dest("B", None, [d.backend]), "spec=C01 relay"])
             g.count("dlg_indialog_" + method)
